@@ -4,7 +4,7 @@ From YV Require Import Common.Tac Common.Sx C08.C08Model Gen.C08Table.
 
 Definition akind_of (n : N) : akind := nth (N.to_nat n) all_akinds KPing.
 Definition lkind_of (n : N) : lkind := nth (N.to_nat n) all_lkinds LKPing.
-Definition ityp_of (n : N) : ityp := nth (N.to_nat n) [TResult; TError; TGet; TSet] TGet.
+Definition ityp_of (n : N) : ityp := nth (N.to_nat n) [TResult; TError; TGet; TSet; TOther] TOther.
 Definition shape_of_n (n : N) : shape := nth (N.to_nat n) [ShPlain; ShSync; ShSPing] ShPlain.
 
 Fixpoint index_of {A} (eqb : A -> A -> bool) (x : A) (l : list A) : N :=
@@ -32,7 +32,7 @@ Definition lkind_eqb (a b : lkind) : bool :=
 
 Definition sx_which (w : which) : sx := SN (match w with Success => 0 | Error => 1 end).
 Definition sx_ityp (t : ityp) : sx :=
-  SN (match t with TResult => 0 | TError => 1 | TGet => 2 | TSet => 3 end).
+  SN (match t with TResult => 0 | TError => 1 | TGet => 2 | TSet => 3 | TOther => 4 end).
 (* a request as (id, 0 app-kind | 1 lib-kind, code) *)
 Definition sx_request (r : request) : sx :=
   match rorigin r with
@@ -51,11 +51,19 @@ Definition sx_event (e : event) : sx :=
   | EvPong i => SL [SN 6; SN i]
   end.
 
-(* a stanza delivered from inside a send: (id typ shape) *)
-Definition ndel_of (s : sx) : ndel :=
-  mkndel (sx_get_n (sx_nth s 0)) (ityp_of (sx_get_n (sx_nth s 1))) (shape_of_n (sx_get_n (sx_nth s 2))).
+(* the rest of a stanza: ((attr ...) (child ...)), attr = (name value), child = (tag (attr ...)) *)
+Definition attrs_of (s : sx) : attrs :=
+  map (fun a => (sx_get_b (sx_nth a 0), sx_get_b (sx_nth a 1))) (sx_get_l s).
+Definition content_of (s : sx) : content :=
+  mkcontent (attrs_of (sx_nth s 0))
+            (map (fun ch => (sx_get_b (sx_nth ch 0), attrs_of (sx_nth ch 1))) (sx_get_l (sx_nth s 1))).
 
-(* op: (0 kind hs he rs re budget (sync ...)) | (1 lkind (sync ...)) | (2 id typ shape) | (3 id) *)
+(* a stanza delivered from inside a send: (id typ shape content) *)
+Definition ndel_of (s : sx) : ndel :=
+  mkndel (sx_get_n (sx_nth s 0)) (ityp_of (sx_get_n (sx_nth s 1))) (shape_of_n (sx_get_n (sx_nth s 2)))
+         (content_of (sx_nth s 3)).
+
+(* op: (0 kind hs he rs re budget (sync ...)) | (1 lkind (sync ...)) | (2 id typ shape content) | (3 id) *)
 Definition op_of (s : sx) : sop :=
   let a n := sx_get_n (sx_nth s n) in
   match a 0%nat with
@@ -63,7 +71,7 @@ Definition op_of (s : sx) : sop :=
               (mkretry (sx_get_bool (sx_nth s 4)) (sx_get_bool (sx_nth s 5)) (N.to_nat (a 6%nat)))
               (map ndel_of (sx_get_l (sx_nth s 7)))
   | 1 => SLib (lkind_of (a 1%nat)) (map ndel_of (sx_get_l (sx_nth s 2)))
-  | 2 => SDeliver (a 1%nat) (ityp_of (a 2%nat)) (shape_of_n (a 3%nat))
+  | 2 => SDeliver (a 1%nat) (ityp_of (a 2%nat)) (shape_of_n (a 3%nat)) (content_of (sx_nth s 4))
   | _ => SOther (a 1%nat)
   end%N.
 
